@@ -3,6 +3,7 @@ The property files compare them with the values the hand-written models were wri
 edit that changes allocation/aliasing policy, pass-through of parameters, call arities or the control skeleton
 re-opens the corresponding proof obligation."""
 import ast
+import re
 import glob
 import os
 
@@ -125,6 +126,28 @@ def evolvent_copy_facts(repo):
     extra = [ast.unparse(n)[:60] for n in tree.body if not isinstance(n, (ast.Import, ast.ImportFrom, ast.ClassDef))]
     extra += [ast.unparse(n)[:60] for n in cls.body if not isinstance(n, ast.FunctionDef) and not (isinstance(n, ast.Expr) and isinstance(n.value, ast.Constant))]
     out.append('Definition evolvent_module_state : list string := %s.' % clist(map(cstr, extra)))
+    # nothing outside evolvent.py configures or writes into an Evolvent object after construction
+    ext = []
+    for root, _, files in os.walk(os.path.join(repo, 'iOpt')):
+        for fn in sorted(files):
+            rel = os.path.relpath(os.path.join(root, fn), repo)
+            if not fn.endswith('.py') or rel.replace(os.sep, '/') == 'iOpt/evolvent/evolvent.py':
+                continue
+            for n in ast.walk(parse(repo, rel)):
+                tgts = n.targets if isinstance(n, ast.Assign) else ([n.target] if isinstance(n, (ast.AugAssign, ast.AnnAssign)) else [])
+                for t in tgts:
+                    for e in (t.elts if isinstance(t, ast.Tuple) else [t]):
+                        base = e
+                        while isinstance(base, ast.Subscript):
+                            base = base.value
+                        src = ast.unparse(base)
+                        if isinstance(base, ast.Attribute) and re.search(r'(^|\.)evolvent\.', src):
+                            ext.append('%s: %s' % (rel.replace(os.sep, '/'), src))
+                if isinstance(n, ast.Call) and isinstance(n.func, ast.Attribute) and n.func.attr in ('SetBounds', '__setattr__') and re.search(r'(^|\.)evolvent$', ast.unparse(n.func.value)):
+                    ext.append('%s: %s' % (rel.replace(os.sep, '/'), ast.unparse(n.func)))
+                if isinstance(n, ast.Call) and isinstance(n.func, ast.Name) and n.func.id == 'setattr' and n.args and re.search(r'(^|\.)evolvent$', ast.unparse(n.args[0])):
+                    ext.append('%s: setattr(%s, ...)' % (rel.replace(os.sep, '/'), ast.unparse(n.args[0])))
+    out.append('Definition evolvent_external_writes : list string := %s.' % clist(map(cstr, sorted(ext))))
     return out
 
 
